@@ -18,6 +18,7 @@ import DarsiaGen.PointRounding
 import DarsiaModel.Corrections
 import DarsiaProofs.Corrections
 import DarsiaProofs.Floor
+import DarsiaModel.GenPerspective
 namespace Darsia.C09
 open Darsia.Affine Darsia.Warp
 
@@ -531,5 +532,74 @@ theorem quarter_turn_voxel_on_breakpoint (rnd : Rounding) (csS csD : CS2) (v0 v1
   rcases hq with rfl | rfl <;> exact key _
 
 end round2
+
+/-! ### GeneralizedPerspectiveTransformation.inverse_array (rational part), over any field -/
+
+section genperspective
+open Darsia.GenPerspective
+
+variable {F : Type} [Field F]
+
+/-- identity: with the constructor's default parameters every point is mapped to itself, for any image box. -/
+theorem gp_identity (center maxC minC x : V2 F) : (GP.default center maxC minC).inverse x = x := by
+  ext <;> simp [GP.inverse, GP.stretch, GP.bulge, GP.perspective, GP.default, M2.mulVec, M2.one, V2.add, V2.dot]
+
+/-- affine reduction: without perspective scaling, bulge and stretch the map is x ↦ A x + b … -/
+theorem gp_affine_reduction (A : M2 F) (b center maxC minC x : V2 F) :
+    (GP.affine A b center maxC minC).inverse x = V2.add (A.mulVec x) b := by
+  ext <;> simp [GP.inverse, GP.stretch, GP.bulge, GP.perspective, GP.affine, V2.add, V2.dot]
+
+/-- … in particular a pure translation for A = I. -/
+theorem gp_translation (b center maxC minC x : V2 F) :
+    (GP.affine M2.one b center maxC minC).inverse x = V2.add x b := by
+  rw [gp_affine_reduction, M2.one_mulVec]
+
+/-- the affine sub-case with the parameters of an `AffineTransformation` (A = R_inv / σ, b = −R_inv t / σ) is that
+transformation's `inverse_array`. -/
+theorem gp_affine_eq_affine_inverse (t : V2 F) (σ c s : F) (center maxC minC x : V2 F) :
+    (GP.affine ⟨(1 / σ) * c, (1 / σ) * s, (1 / σ) * (-s), (1 / σ) * c⟩
+        (V2.smul (-(1 / σ)) ((rot2Inv c s).mulVec t)) center maxC minC).inverse x
+      = (Affine2.mk' t σ c s).inverse x := by
+  rw [gp_affine_reduction]
+  ext <;> simp only [Affine2.inverse, Affine2.mk', rot2Inv, M2.mulVec, V2.add, V2.sub, V2.smul] <;> ring
+
+/-- inverse of the affine sub-case: for det A ≠ 0 the map is a bijection of the plane, undone by
+y ↦ adj(A)(y − b)/det A (both compositions are the identity). -/
+theorem gp_affine_invertible (A : M2 F) (b center maxC minC : V2 F) (hd : A.det ≠ 0) (x y : V2 F) :
+    affineUndo A b ((GP.affine A b center maxC minC).inverse x) = x ∧
+    (GP.affine A b center maxC minC).inverse (affineUndo A b y) = y := by
+  have hd' : A.a11 * A.a22 - A.a12 * A.a21 ≠ 0 := hd
+  rw [gp_affine_reduction, gp_affine_reduction]
+  constructor <;> ext <;>
+    simp only [affineUndo, GenPerspective.M2.adj, M2.mulVec, M2.det, V2.add, V2.sub] <;>
+    generalize hD : A.a11 * A.a22 - A.a12 * A.a21 = D at hd' ⊢ <;> field_simp <;> rw [← hD] <;> ring
+
+/-- perspective division: both components are divided by the same scalar c·x + 1; where it does not vanish,
+(c·x + 1)·y = A x + b (a projective map; bulge and stretch switched off). -/
+theorem gp_perspective_division (p : GP F) (x : V2 F) (h : p.denom x ≠ 0) :
+    V2.smul (p.denom x) (p.perspective x) = V2.add (p.A.mulVec x) p.b := by
+  have h' : V2.dot p.c x + 1 ≠ 0 := h
+  ext <;> simp only [GP.perspective, GP.denom, V2.smul, V2.add] <;> field_simp
+
+/-- the bulge moves neither the (offset) centre lines nor the image boundary: component i of the correction vanishes
+where component i of the point equals centre + offset, the maximal or the minimal coordinate. -/
+theorem gp_bulge_fixes_centre_and_boundary (p : GP F) (y : V2 F)
+    (hx : y.x = p.center.x + p.bulgeOff.x ∨ y.x = p.maxC.x ∨ y.x = p.minC.x)
+    (hy : y.y = p.center.y + p.bulgeOff.y ∨ y.y = p.maxC.y ∨ y.y = p.minC.y) : p.bulge y = y := by
+  ext
+  · rcases hx with h | h | h <;> simp [GP.bulge, h]
+  · rcases hy with h | h | h <;> simp [GP.bulge, h]
+
+/-- zero factors switch bulge and stretch off, whatever the offsets and the image box. -/
+theorem gp_no_bulge_no_stretch (p : GP F) (hb : p.bulgeFactor = ⟨0, 0⟩) (hs : p.stretchFactor = ⟨0, 0⟩) (x : V2 F) :
+    p.inverse x = p.perspective x := by
+  ext <;> simp [GP.inverse, GP.stretch, GP.bulge, hb, hs]
+
+example : (GP.affine (⟨2, 1, 0, 1/2⟩ : M2 Rat) ⟨1, -1⟩ ⟨0, 0⟩ ⟨1, 1⟩ ⟨-1, -1⟩).inverse ⟨3, 4⟩ = ⟨11, 1⟩ := by
+  decide +kernel
+example : ((⟨⟨1, 0, 0, 1⟩, ⟨0, 0⟩, ⟨1/2, 0⟩, ⟨0, 0⟩, ⟨0, 0⟩, ⟨1, 0⟩, ⟨0, 0⟩, ⟨0, 0⟩, ⟨2, 2⟩, ⟨-2, -2⟩⟩ : GP Rat).inverse ⟨2, 4⟩)
+    = ⟨4, 2⟩ := by decide +kernel
+
+end genperspective
 
 end Darsia.C09
